@@ -16,7 +16,7 @@ type H struct {
 	Mode string `json:"mode"` // every | one | some
 }
 
-const ruleRocks = "rapid-drawn workloads (1-10 insertion calls, single or bulk up to 6, distinct events) on a single-node RaftNode over RocksDB in executor children, with a clean stop (RaftNode.Close(true), process exit) and restart on the same directories at a drawn set of stop points: after every call incl. before the first ('every'), at one drawn point ('one'), or a drawn subset ('some'). Oracle: Close returns without error, the process exits 0 with no signal (an abort in rocksdb_close is the leak the property forbids); every snapshot acknowledged after a restart equals the reference model's for the uninterrupted sequence; sampled membership / consistency proofs for pre-stop events verify against pre-stop snapshots. Non-trivial: a restart with state before it and >=1 insertion and >=1 proof after it. distinct = FNV-64 of the history."
+const ruleRocks = "rapid-drawn workloads (1-10 insertion calls, single or bulk up to 6, distinct events) on a single-node RaftNode over RocksDB in executor children, with a clean stop (RaftNode.Close(true), process exit) and restart on the same directories at a drawn set of stop points: after every call incl. before the first ('every'), at one drawn point ('one'), or a drawn subset ('some'); a stop may be preceded by a forced raft snapshot (log compaction), and 1 case in 8 contains a bulk of 1001-2001 events (above the 1000-entry page of the cache warm-up). Oracle: Close returns without error, the process exits 0 with no signal (an abort in rocksdb_close is the leak the property forbids); every snapshot acknowledged after a restart equals the reference model's for the uninterrupted sequence; sampled membership / consistency proofs for pre-stop events verify against pre-stop snapshots. Non-trivial: a restart with state before it and >=1 insertion and >=1 proof after it. distinct = FNV-64 of the history."
 
 func TestRocksRestart(t *testing.T) {
 	rec := pbt.NewRec("C08", "TestRocksRestart", ruleRocks, "clean stop = RaftNode.Close(true) then process exit; SIGKILL is C07's")
@@ -42,8 +42,21 @@ func TestRocksRestart(t *testing.T) {
 			}
 		}
 		h := H{Mode: mode}
+		if rapid.IntRange(0, 7).Draw(rt, "big") == 0 && m >= 1 {
+			// one call is a bulk above the 1000-entry page of the cache warm-up
+			var es []string
+			for j, k := 0, rapid.SampledFrom([]int{1001, 1100, 1500, 2001}).Draw(rt, "big-n"); j < k; j++ {
+				es = append(es, fmt.Sprintf("big-%d", j))
+			}
+			adds[rapid.IntRange(0, m-1).Draw(rt, "big-at")] = rig.Step{Op: "add", Events: es}
+			h.Mode += "+big"
+		}
 		for i := 0; i <= m; i++ {
 			if pts[i] {
+				if i > 0 && rapid.IntRange(0, 2).Draw(rt, "snap") == 0 {
+					// a raft snapshot (and log compaction) right before the stop
+					h.Steps = append(h.Steps, rig.Step{Op: "snapshot"})
+				}
 				h.Steps = append(h.Steps, rig.Step{Op: "restart"})
 			}
 			if i < m {
